@@ -17,15 +17,20 @@ def check(ctx):
     ctx.assume("modified times increase with every write (assumption of the property); the argument from P1-P4 to the statement is on paper; cut positions are not enumerated")
     er = E.discover(ctx.model)
     rr = R.discover(ctx.model, er)
-    W.rule_edge_effect_table(ctx, "C08.P1", rr)
-    W.rule_two_entry_chains(ctx, "C08.P1", rr)
-    W.rule_snapshot_before_mutation(ctx, "C08.P1", rr)
-    E.rule_enqueue_after_success(ctx, "C08.P2", er)
-    E.rule_catch_all(ctx, "C08.P2", er)
-    E.rule_atomic_counter(ctx, "C08.P2", er)
-    R.rule_cause_chain(ctx, "C08.P2", rr)
-    S.rule_stale_table(ctx, "C08.P3", rr)
-    S.rule_every_stale_entry_rebuilt(ctx, "C08.P3", rr)
+    ctx.run(W.rule_edge_effect_table, "C08.P1", rr)
+    ctx.run(W.rule_two_entry_chains, "C08.P1", rr)
+    ctx.run(W.rule_snapshot_before_mutation, "C08.P1", rr)
+    ctx.run(E.rule_enqueue_after_success, "C08.P2", er)
+    ctx.run(E.rule_catch_all, "C08.P2", er)
+    ctx.run(E.rule_atomic_counter, "C08.P2", er)
+    ctx.run(R.rule_cause_chain, "C08.P2", rr)
+    ctx.run(S.rule_stale_table, "C08.P3", rr)
+    ctx.run(S.rule_every_stale_entry_rebuilt, "C08.P3", rr)
+    ctx.run(S.rule_order_only, "C08.P3", rr)
+    ctx.run(S.rule_owner_writes_only, "C08.P3", rr)
+    ctx.run(R.rule_retry_loop, "C08.P2", rr)
+    ctx.run(E.rule_first_error, "C08.P2", er)
+    ctx.run(E.rule_callbacks_only_via_engine, "C08.P2", er, [rr.runcb, rr.stalecb])
     sub = type(ctx)(ctx.pid, ctx.model, ctx.tier, quiet=True)
     c11.check(sub)
     for o in sub.obligations:
